@@ -47,6 +47,8 @@ def run(ctx):
     r1 = ctx.rule("R1", "the whole run executes inside with-blocks of both state stores, whose __exit__ always saves", min_instances=6)
     rule_run_inside_stores(ctx, r1)
     rule_exit_persists(ctx, r1)
+    from .persist import rule_store_load
+    rule_store_load(ctx, r1)
     rule_close_writes(ctx, r1)
     from .c07 import rule_tracked_dump
     rule_tracked_dump(ctx, r1)
